@@ -355,6 +355,7 @@ pub fn reset_all() {
         CTX = CTX_CLIENT;
         CLOCK = 0;
         IN_UNIT = false;
+        IN_JOIN = false;
         UNIT_IS_AWAITED = false;
         PLACE_ARMED = false;
         PLACE_FIRED = false;
@@ -384,6 +385,33 @@ pub fn run_loop(pool: usize) -> bool {
         }
         None => false,
     }
+}
+
+/// What a pool join means in the model (bound to the model's JOIN scheduling point): the
+/// joiner waits while the reducer loop of that pool runs to its end and the workers finish
+/// every submitted task.  Code that follows the join in `stop()` therefore runs AFTER the
+/// loop, as with a real join that does not time out; a store lock that `stop()` still holds
+/// and the loop needs shows up as a deadlock (Mutex::lock stub).
+pub static mut IN_JOIN: bool = false;
+pub fn on_join(kind: u8, obj: usize) {
+    if kind != crossbeam::hooks::JOIN {
+        return;
+    }
+    unsafe {
+        if IN_JOIN {
+            return;
+        }
+        IN_JOIN = true;
+    }
+    run_loop(obj);
+    run_pending(8);
+    unsafe {
+        IN_JOIN = false;
+    }
+}
+/// default binding of the model's scheduling points for harnesses without placed units
+pub fn default_yield(kind: u8, obj: usize) {
+    on_join(kind, obj)
 }
 
 /// Run pending non-loop tasks (effects, thunks) in submission order, at most `max` of
